@@ -1859,7 +1859,8 @@ def set_correlation_real(x1,x2,r):
                     "correlation coefficient '{}' != 1.0".format(r)
                 )
             else:
-                if abs(r) > 1.0:
+                # NB `not <=` also rejects nan: comparisons with nan are always false
+                if not abs(r) <= 1.0:
                     raise ValueError(
                         "correlation coefficient '|{}|' > 1.0".format(r)
                     )
